@@ -5,6 +5,8 @@ CONSTANTS
   Writers = {w1, w2}
   Snap = "none"
   SnapFails = FALSE
+  Snap2 = "none"
+  RstFile = "f"
   Rst = "none"
   Rep = "rep"
   Offsets = {0, 1, 2}
